@@ -12,6 +12,7 @@ import Driver.Hist
 import Driver.Fmm
 import Driver.Bary
 import Driver.Space
+import Driver.Blocked
 
 open Driver
 
@@ -30,6 +31,7 @@ def step (line : String) : String :=
   | "fmmpmap" :: _ | "fmmsmap" :: _ | "fmmtidx" :: _ | "fmmmv" :: _ => Driver.Fmm.handle toks
   | "space" :: _ | "bcint" :: _ => Driver.Space.handle toks
   | "bary" :: _ => Driver.Bary.handle toks
+  | "blk" :: _ => Driver.Blocked.handle toks
   | _ => "err bad-op"
 
 partial def loop (h : IO.FS.Stream) (out : IO.FS.Stream) : IO Unit := do
